@@ -115,6 +115,24 @@ def grid_items(rng, npool, nrand, bitpos=True):
         for j in range(0, len(calls), chunk):
             items.append({"id": "g%s_%d" % (t, j // chunk), "module": mod,
                           "script": [{"op": "instantiate", "binds": {"mem": 0, "table": 0, "globals": []}}] + calls[j:j + chunk]})
+    # every pair of adjacent unary / width-changing integer instructions whose types fit (peephole shapes)
+    UN = [("i32." + o, "i32", "i32") for o in IUN["i32"]] + [("i64." + o, "i64", "i32" if o == "eqz" else "i64") for o in IUN["i64"]] + \
+         [("i32.wrap_i64", "i64", "i32"), ("i64.extend_i32_s", "i32", "i64"), ("i64.extend_i32_u", "i32", "i64")]
+    types2 = [{"p": [a], "r": [b]} for a in ("i32", "i64") for b in ("i32", "i64")]
+    funcs2, exports2, calls2 = [], [], []
+    PP = {"i32": pool(32, rng, 10, 0), "i64": pool(64, rng, 10, 0)}
+    for o1, a1, r1 in UN:
+        for o2, a2, r2 in UN:
+            if r1 != a2:
+                continue
+            nm_ = "%s__%s" % (o1.replace(".", "_"), o2.replace(".", "_"))
+            funcs2.append({"type": types2.index({"p": [a1], "r": [r2]}), "locals": [], "body": [["local.get", 0], [o1], [o2], ["end"]]})
+            exports2.append({"name": nm_, "kind": "func", "idx": len(funcs2) - 1})
+            calls2 += [{"op": "call", "inst": 1, "export": nm_, "args": [val(a1, x)]} for x in PP[a1]]
+    mod2 = {"types": types2, "funcs": funcs2, "exports": exports2}
+    for j in range(0, len(calls2), 400):
+        items.append({"id": "gpair_%d" % (j // 400), "module": mod2,
+                      "script": [{"op": "instantiate", "binds": {"mem": 0, "table": 0, "globals": []}}] + calls2[j:j + 400]})
     # width-changing instructions
     P32, P64 = pool(32, rng, npool + nrand, 0), pool(64, rng, npool + nrand, 0)
     mod = {"types": [{"p": ["i64"], "r": ["i32"]}, {"p": ["i32"], "r": ["i64"]}],
@@ -133,6 +151,8 @@ def grid_items(rng, npool, nrand, bitpos=True):
 def sig(it, k, why, build, e, a):
     op = it["script"][k - 1]
     name = op.get("export", op["op"])
+    if it["id"].startswith("gpair"):
+        return "pair:%s:%s" % (name, why.split(":")[0])
     if it["id"].startswith("g"):
         # grid: one function per opcode, so the export name identifies the opcode
         t = "i64" if it["id"].startswith("gi64") else "i32"
